@@ -33,6 +33,7 @@ type Prog struct {
 	funcIDs   map[*ssa.Function]int
 	globalIDs map[*ssa.Global]int
 	typeIDs   map[string]int
+	typeByID  []types.Type // typeByID[id-1]
 	allocMemo map[*ssa.Function]int
 	verifDir  string
 	globalChecked map[string]error
@@ -181,6 +182,7 @@ func (P *Prog) typeID(t types.Type) int {
 	}
 	id := len(P.typeIDs) + 1
 	P.typeIDs[k] = id
+	P.typeByID = append(P.typeByID, t)
 	return id
 }
 
